@@ -54,6 +54,7 @@ def run(ctx):
     ctx.do(rule_filters_only_grow)
     ctx.do(rule_scans_complete)
     ctx.do(rule_shortcut_values_are_entry_names)
+    ctx.do(rule_layout_classified_by_content)
     from . import C11 as _C11
     ctx.do(_C11.rule_memory_query_scans_everything, rule_id="C12.scans-complete")
     from .pitfalls import rule_groupby_sorted, rule_single_use_iterators
@@ -781,3 +782,32 @@ def rule_shortcut_values_are_entry_names(ctx):
               "an over-long (but otherwise well-formed) filter value raises OSError(ENAMETOOLONG) out of the query instead of "
               "matching nothing", file=rel, line=handlers[0].lineno if handlers else lp.lineno, function=fi.qualname,
               expected="errno in (ENOENT, ENAMETOOLONG) tolerated", found=tolerated[:120])
+
+
+def rule_layout_classified_by_content(ctx, rule_id="C12.optimiser-table"):
+    """A type directory is searched as 'versioned' (one sub-directory per id) or 'unversioned' (one file per id).  Which of the
+    two it is, is a fact about the DIRECTORY and is read from it by _is_versioned_type_dir on every query; deriving it from
+    the query (are the whitelisted ids present as directories?) makes the answer for a stored id depend on which OTHER ids the
+    same filter names -- Filter('id', 'in', [stored, never_stored]) finds nothing.  In FileSystemSource.query the test that
+    selects between the two searches is computed by that classifier alone (every reaching definition)."""
+    run = ctx.run
+    prog = ctx.prog
+    fi = prog.func("stix2.datastore.filesystem::FileSystemSource.query")
+    rel = fi.module.relpath
+    sel = [x for x in body_walk(fi.node) if isinstance(x, ast.If) and any(
+        isinstance(c, ast.Call) and call_simple_name(c) == "_search_versioned" for st in x.body for c in ast.walk(st))]
+    if len(sel) != 1:
+        raise AnalysisError("FileSystemSource.query: the versioned / unversioned selection was not found")
+    t = sel[0].test
+    fl = flow_of(fi)
+    if isinstance(t, ast.Name):
+        defs = [v for _dn, v in fl.rd.reaching(fl.node_for(t), t.id)]
+    else:
+        defs = [t]
+    ok = bool(defs) and all(isinstance(e, ast.Call) and call_simple_name(e) == "_is_versioned_type_dir" for e in defs)
+    run.check(ok, rule_id, key(rel, fi.qualname, "layout-classified-by-the-directory"),
+              "whether a type directory is searched as versioned is not (only) what _is_versioned_type_dir reads from the "
+              "directory: a classification computed from the query makes the result for one id depend on the other values of the "
+              "filter", file=rel, line=sel[0].lineno, function=fi.qualname,
+              expected="<flag> = _is_versioned_type_dir(type_path, type_dir) on every path", found=[short(e, 90) if isinstance(e, ast.AST) else str(e) for e in defs if not (
+                  isinstance(e, ast.Call) and call_simple_name(e) == "_is_versioned_type_dir")])
